@@ -3,6 +3,7 @@ import Holpy.C20.Gen
 import Holpy.C20.Proofs
 import Holpy.C20.ProofsSem
 import Holpy.C20.ProofsParse
+import Holpy.C20.ProofsParseCond
 /-
 C20 — property theorems (helper lemmas: Proofs.lean, ProofsSem.lean, ProofsParse.lean).
 `Exec` is the big-step semantics of Proofs.lean, `holds s e` is `evalE s e = some (.bool true)`,
